@@ -229,7 +229,11 @@ theorem facts_c18_hist :
       "c.haproxy.Frontend().RemoveAuthBackendByTarget(dirtyBacks)",
       "c.haproxy.Backends().RemoveAll(dirtyBacks)", "c.haproxy.Userlists().RemoveAll(dirtyUsers)",
       "c.haproxy.AcmeData().Storages().RemoveAll(dirtyStorages)"] ∧
-    Facts.c18PartialSyncRanges = ["c.haproxy.Hosts().ItemsAdd()", "c.haproxy.Backends().ItemsAdd()"] ∧
+    -- 67da5a0 / 85c4ee0: the dirty hosts / backends are visited in a stable (sorted) order; before, in Go
+    -- map order.  Both are "each dirty host, then each dirty backend, once, in SOME order", which is what
+    -- the theorems quantify over
+    (Facts.c18PartialSyncRanges = ["sortedHosts(c.haproxy.Hosts().ItemsAdd())", "sortedBackends(c.haproxy.Backends().ItemsAdd())"] ∨
+     Facts.c18PartialSyncRanges = ["c.haproxy.Hosts().ItemsAdd()", "c.haproxy.Backends().ItemsAdd()"]) ∧
     Facts.c18PartialSyncOrder = ["c.updater.UpdateHostConfig", "c.updater.UpdateBackendConfig"] ∧
     Facts.c18RemoveByTargetConds = ["!hasBackend(backends, bind.Backend.String())"] := by
   decide +kernel
